@@ -11,7 +11,9 @@
 (* kind "m" holds a go.mod.  Names are chosen to hit each rule: plain      *)
 (* (a, b.txt), hidden (.h), underscore (_u), VCS (.git), space (x y),      *)
 (* non-ASCII (U), forbidden punctuation (c:d), reserved device name (aux), *)
-(* symbolic link (ln), nested module (mod), sub-directory (sub).           *)
+(* symbolic link (ln), nested module (mod), sub-directory (sub), and a     *)
+(* sibling directory sub-x: "sub-x/" sorts before "sub/" as a string but   *)
+(* after it in the (directory, element) order embed.FS searches by.        *)
 (***************************************************************************)
 EXTENDS Embed, TLC, Json
 
@@ -35,8 +37,9 @@ NameTab == << <<"a">>,                        \*  1
               <<"a", "u", "x">>,              \*  9
               <<"l", "n">>,                   \* 10
               <<"m", "o", "d">>,              \* 11
-              <<"s", "u", "b">> >>            \* 12
-KindsOf == << {"f", "d"}, {"f"}, {"f", "d"}, {"f", "d"}, {"d"}, {"f"}, {"f"}, {"f", "d"}, {"f"}, {"l", "L"}, {"m"}, {"d"} >>
+              <<"s", "u", "b">>,              \* 12
+              <<"s", "u", "b", "-", "x">> >>  \* 13  a directory whose name extends "sub" by a byte below "/"
+KindsOf == << {"f", "d"}, {"f"}, {"f", "d"}, {"f", "d"}, {"d"}, {"f"}, {"f"}, {"f", "d"}, {"f"}, {"l", "L"}, {"m"}, {"d"}, {"d"} >>
 KindCode == [k \in {"f", "d", "m", "l", "L"} |-> CASE k = "f" -> 1 [] k = "d" -> 2 [] k = "m" -> 3 [] k = "l" -> 4 [] k = "L" -> 5]
 ZGO == <<"z", ".", "g", "o">>
 
@@ -125,7 +128,19 @@ IdxLess(p, q) == IF p = <<>> THEN q # <<>>
                  ELSE IF p[1] = q[1] THEN IdxLess(Tail(p), Tail(q))
                  ELSE p[1] < q[1]
 
-Init == tree = {} /\ last = <<>> /\ h = 0
+\* trees emitted on every run whatever the seed and the bounds (they are not grown further: `last` is beyond every path):
+\* sibling directories sub and sub-x, each holding files, in the package directory and one level down
+N(p, k) == [p |-> p, k |-> k]
+FixedTrees == {
+  { N(<<12>>, "d"), N(<<12, 1>>, "f"), N(<<13>>, "d"), N(<<13, 1>>, "f") },
+  { N(<<1>>, "f"), N(<<12>>, "d"), N(<<12, 1>>, "f"), N(<<12, 3>>, "f"), N(<<13>>, "d"), N(<<13, 1>>, "f"), N(<<13, 4>>, "f") },
+  { N(<<12>>, "d"), N(<<12, 12>>, "d"), N(<<12, 12, 1>>, "f"), N(<<12, 13>>, "d"), N(<<12, 13, 1>>, "f") },
+  { N(<<12>>, "d"), N(<<12, 1>>, "f"), N(<<12, 12>>, "d"), N(<<12, 12, 1>>, "f"), N(<<12, 13>>, "d"), N(<<12, 13, 1>>, "f"),
+    N(<<13>>, "d"), N(<<13, 1>>, "f"), N(<<13, 12>>, "d"), N(<<13, 12, 1>>, "f") } }
+
+Init == /\ h = 0
+        /\ \/ tree = {} /\ last = <<>>
+           \/ tree \in FixedTrees /\ last = <<99>>
 
 AddNode ==
   /\ Cardinality(tree) < MaxNodes
@@ -141,7 +156,7 @@ AddNode ==
 Next == AddNode
 Spec == Init /\ [][Next]_vars
 
-Selected == (h % Mod) = (Sel % Mod) \/ Cardinality(tree) <= Always
+Selected == (h % Mod) = (Sel % Mod) \/ Cardinality(tree) <= Always \/ tree \in FixedTrees
 
 \* ------------------------------------------------------------------ the directory the tree denotes
 NamePath(ip) == [j \in 1..Len(ip) |-> NameTab[ip[j]]]
